@@ -42,6 +42,7 @@ type FuncContract struct {
 	Props      []string
 	Core       bool
 	Trusted    bool // extern / trusted: body not checked
+	TrustedFrame bool // the assigns clause is assumed, not checked against the body (listed)
 	Pure       bool
 	Concurrent bool // concurrent_entry
 	Replay     string
@@ -369,6 +370,8 @@ func (cs *Contracts) funcClause(cur *FuncContract, path string, ln int, word, re
 		}
 	case "trusted":
 		cur.Trusted = true
+	case "trusted-frame":
+		cur.TrustedFrame = true
 	case "pure":
 		cur.Pure = true
 		cur.HasAssigns = true
